@@ -19,7 +19,8 @@ ROOT = os.path.dirname(os.path.dirname(os.path.dirname(os.path.abspath(__file__)
 META = dict(
     level='model_checking',
     technique='(1) the cross product of constructor arguments over small domains is executed on the real constructors/build: '
-              'ValueError = rejected, any other exception = violation; a table of must-reject situations is checked against it. '
+              'ValueError = rejected, any other exception = violation; a table of must-reject situations is checked against it, and a table of must-accept situations (valid layers built from every '
+              'usual spelling of the input shape) must build and evaluate finitely. '
               '(2) for every ACCEPTED configuration the weight constraint and the forward pass are traced and executed '
               'symbolically; every division keeps its denominator (fraction lifting) and z3 decides that no output element can be '
               'undefined (zero denominator, root/log out of domain) for any finite weights and inputs. (3) synonymous spellings: '
